@@ -66,6 +66,10 @@ def gen_history(rng, hid, want_violation, scope):
         v = rng.choice(sorted(moved))
         uk = rng.choice(nonmove + move_kinds)
         k += 1
+        if rng.random() < 0.3:
+            # an inner subroutine whose parameter/local merely has the same NAME as the moved variable changes nothing
+            lines.append(rng.choice([f"sh{hid}_{k}({v}: Int) = 0", f"sh{hid}_{k}() =\n    {v} = 1\n    {v}"]))
+            info_shadow = True
         if uk in move_kinds:
             lines.append({"bind": f"t{hid}_{k} = {v}", "list": f"t{hid}_{k} = [{v}]", "tuple": f"t{hid}_{k} = ({v}, 1)", "mv-param": f"mv_! {v}", "mv-default-param": f"dfl_! 2, {v}"}[uk])
         else:
